@@ -298,7 +298,7 @@ theorem c12_refuses (s : St) (h : s.closed = true) :
 /-- a connection handed to a torn-down session is closed, not kept: `addConn` tests the teardown under the mutex under which
 `closeAll` sweeps, so every connection is either stored before the sweep (and closed by it) or refused (and closed) after it
 (`c12_conns`: all stored connections end up closed) -/
-theorem gen_late_conn : Gen.Session.addConnRefusesAfterTeardown = true := by decide
+theorem gen_late_conn : Gen.Session.addConnRefusesAfterTeardown = true ∧ Gen.Session.closeSweepsEvenIfNoticeFails = true := by decide
 
 /-- `Accept` does not look at the closed flag before the queue (it did before /repo's fix) -/
 theorem gen_accept : Gen.Session.acceptChecksClosedFirst = false := by decide
